@@ -30,11 +30,23 @@ def lastNul (k : Bytes) : Option Nat :=
     | c :: r, i, acc => go r (i + 1) (if c = 0 then some i else acc)
   go k 0 none
 
-/-- the keys an iterator visits: positioned by `Seek`, then while `ValidForPrefix` -/
+/-- `prefixEnd`: the smallest key that sorts after every key having the prefix — strip the
+trailing 0xFF bytes, increment the last byte — or `none` if there is no such key -/
+def prefixEnd (p : Bytes) : Option Bytes :=
+  let q := (p.reverse.dropWhile (· = 255)).reverse
+  match q.getLast? with
+  | none => none
+  | some c => some (q.dropLast ++ [c + 1])
+
+/-- the keys an iterator visits: positioned by `Seek`, then while `ValidForPrefix`.  In
+reverse the iterator is positioned at the last key below `prefixEnd` (`Seek(end)` lands on the
+largest key ≤ `end`; `end` itself is stepped over), or at the very last key (`Rewind`) -/
 def scan (keys : List Bytes) (pre : Bytes) (reverse : Bool) : List Bytes :=
   if reverse then
-    let seekKey := pre ++ [255]
-    ((keys.filter (fun k => ble k seekKey)).reverse).takeWhile (fun k => pre.isPrefixOf k)
+    let below := match prefixEnd pre with
+      | some e => keys.filter (fun k => blt k e)
+      | none => keys
+    (below.reverse).takeWhile (fun k => pre.isPrefixOf k)
   else
     (keys.dropWhile (fun k => blt k pre)).takeWhile (fun k => pre.isPrefixOf k)
 
